@@ -13,6 +13,22 @@ verify_payer_metadata_inner), translated from the Rust text that exists NOW:
                 `metadata_verify_refuses_parity_flip`) holds only for the full-key comparison.
   hmacOk        `metadata.len() == Nonce::LENGTH + Sha256::LEN && fixed_time_eq(&metadata[Nonce::LENGTH..], &hmac.to_byte_array())`
 
+Plus (C18 round 6, repair of KF-C18-1) WHICH RECORDS of an offer the stateless check covers, from
+lightning/src/offers/offer.rs::OfferContents::verify and signer.rs::Metadata::derives_recipient_keys:
+
+  offerRecordCovered   the arms of the `.filter(|record| match record.r#type { .. })` over
+                       `TlvStream::new(bytes).range(OFFER_TYPES)`, one `if ty = CONST` per named arm in source
+                       order (the CONSTs are translated from offer.rs too); an arm is a boolean expression over
+                       `true` / `false` / `matches!(metadata, Metadata::RecipientData(_))` (-> recipient_data) /
+                       `metadata.derives_recipient_keys()` (-> derives_recipient_keys).  Model/OfferMeta.lean::
+                       offerCovered filters with THIS definition; Props/C18.lean `offer_covered_complete` /
+                       `offer_recipient_data_covers_all_but_issuer_id` hold only when the metadata record is
+                       covered in recipient-data mode.
+  derivesRecipientKeys the `Metadata::Bytes` / `Metadata::RecipientData` arms of derives_recipient_keys (the two
+                       variants that reach verify: verify_using_metadata hands over the parsed `self.metadata`,
+                       verify_using_recipient_data builds `Metadata::RecipientData(nonce)`; both callers and their
+                       IV constants are pinned).
+
 The statement shape around the three expressions (the `Keypair::from_secret_key` of the HMAC, the
 `#[cfg(fuzzing)]` overrides, the `if ok { Ok(..) } else { Err(()) }` tails) is pinned by a regex;
 anything else is a TRANSLATE-ERROR (exit 2), never silently OK.
@@ -61,6 +77,104 @@ def operand(text, env, what):
     if ty != 'Bytes': raise TErr('%s: operand `%s` of fixed_time_eq is a %s, not a serialisation' % (what, text, ty))
     return term
 
+
+# ---- offer.rs::OfferContents::verify: which records are covered ----------------------------------
+def squeeze(s):
+    """one-space whitespace, method chains joined (`x .range(` -> `x.range(`)"""
+    return re.sub(r'\s+\.(?!\.)', '.', ws(s))
+
+def bool_expr(rust, what):
+    """boolean expression over the metadata mode -> Lean Bool term over recipient_data / derives_recipient_keys"""
+    t = rust
+    t = re.sub(r'matches!\(\s*metadata\s*,\s*Metadata::RecipientData\(_\)\s*\)', 'recipient_data', t)
+    t = re.sub(r'matches!\(\s*metadata\s*,\s*Metadata::Bytes\(_\)\s*\)', '(!recipient_data)', t)
+    if 'matches!' in t or 'Metadata::' in t:
+        raise TErr('%s: `%s` tests a Metadata variant outside the translated subset (Bytes / RecipientData reach verify)' % (what, rust))
+    def drk(recv, args):
+        if recv.replace(' ', '') == 'metadata' and not args: return 'derives_recipient_keys'
+        raise TranslateError('unexpected receiver %s of derives_recipient_keys' % recv)
+    try:
+        out = Emitter(env={'recipient_data': 'recipient_data'}, methods={'derives_recipient_keys': drk}).e(parse_expr(t))
+    except TranslateError as e:
+        raise TErr('%s: cannot translate `%s`: %s' % (what, rust, e))
+    for w in re.findall(r'[A-Za-z_][A-Za-z0-9_]*', out):
+        if w not in ('true', 'false', 'recipient_data', 'derives_recipient_keys'):
+            raise TErr('%s: `%s` reads `%s`, which is not part of the metadata mode' % (what, rust, w))
+    return out
+
+def coverage(L):
+    p = os.path.join(REPO, 'lightning/src/offers/offer.rs')
+    if not os.path.exists(p): raise TErr('missing file lightning/src/offers/offer.rs')
+    src = strip_comments(open(p).read())
+    if 'impl OfferContents {' not in src: raise TErr('offer.rs: `impl OfferContents {` not found')
+    def fn(name):
+        try:
+            params, _, body = find_fn(src, name, after='impl OfferContents {')
+        except (TranslateError, ValueError) as e:
+            raise TErr('OfferContents::%s: %s' % (name, e))
+        return squeeze(params), squeeze(body)
+    # the two callers: which Metadata value and which IV reach verify
+    _, b1 = fn('verify_using_metadata')
+    if b1 != '{ self.verify(bytes, self.metadata.as_ref(), key, IV_BYTES_WITH_METADATA, secp_ctx) }':
+        raise TErr('OfferContents::verify_using_metadata no longer has the expected shape: %s' % b1[:300])
+    _, b2 = fn('verify_using_recipient_data')
+    if b2 != '{ let metadata = Metadata::RecipientData(nonce); self.verify(bytes, Some(&metadata), key, IV_BYTES_WITHOUT_METADATA, secp_ctx) }':
+        raise TErr('OfferContents::verify_using_recipient_data no longer has the expected shape: %s' % b2[:300])
+    params, body = fn('verify')
+    if [x.split(':')[0].strip() for x in params.split(',') if x.strip()] != ['&self', 'bytes', 'metadata', 'key', 'iv_bytes', 'secp_ctx']:
+        raise TErr('OfferContents::verify parameters changed: %s' % params)
+    m = re.fullmatch(
+        r'\{ match metadata \{ Some\(metadata\) => \{ '
+        r'let tlv_stream = TlvStream::new\(bytes\)\.range\(OFFER_TYPES\)\.filter\(\|record\| match record\.r#type \{ (.+?),? \}\)'
+        r'\.chain\(TlvStream::new\(bytes\)\.range\(EXPERIMENTAL_OFFER_TYPES\)\); '
+        r'let signing_pubkey = match self\.issuer_signing_pubkey\(\) \{ Some\(signing_pubkey\) => signing_pubkey, None => return Err\(\(\)\), \}; '
+        r'let keys = signer::verify_recipient_metadata\( ?metadata\.as_ref\(\), key, iv_bytes, signing_pubkey, tlv_stream, secp_ctx,? ?\)\?; '
+        r'let offer_id = OfferId::from_valid_bolt12_tlv_stream\(bytes\); Ok\(\(offer_id, keys\)\) \},? None => Err\(\(\)\),? \} \}', body, re.S)
+    if not m: raise TErr('OfferContents::verify no longer has the expected shape: %s' % body[:500])
+    arms_txt = m.group(1)
+    # protect the comma inside matches!(..) before splitting the arms
+    prot = re.sub(r'matches!\(\s*metadata\s*,', 'matches!(metadata;', arms_txt)
+    arms = []
+    for a in [x.strip() for x in prot.split(',') if x.strip()]:
+        ma = re.fullmatch(r'([A-Z][A-Z0-9_]*|_) => (.+)', a)
+        if not ma: raise TErr('OfferContents::verify: filter arm `%s` is outside the translated subset' % a)
+        arms.append((ma.group(1), ma.group(2).replace('matches!(metadata;', 'matches!(metadata,')))
+    if len(arms) < 2 or arms[-1][0] != '_' or any(n == '_' for n, _ in arms[:-1]) or len(set(n for n, _ in arms)) != len(arms):
+        raise TErr('OfferContents::verify: the record filter `%s` is not `CONST => .., .., _ => ..`' % arms_txt)
+    for name, _ in arms[:-1]:
+        mc = re.search(r'\bconst %s\s*:\s*u64\s*=\s*(\d+)\s*;' % name, src)
+        if not mc: raise TErr('offer.rs: `const %s: u64 = <n>;` not found' % name)
+        L += ['def %s : Nat := %s  -- offer.rs' % (name, mc.group(1))]
+    L += ['', '/-- offer.rs OfferContents::verify: a record of `TlvStream::new(bytes).range(OFFER_TYPES)` is fed to the HMAC iff',
+          '    `match record.r#type { %s }`; `recipient_data` = the metadata is `Metadata::RecipientData(_)`' % arms_txt,
+          '    (verify_using_recipient_data), `derives_recipient_keys` = `metadata.derives_recipient_keys()`; the records of',
+          '    `.range(EXPERIMENTAL_OFFER_TYPES)` are chained unfiltered -/',
+          'def offerRecordCovered (recipient_data derives_recipient_keys : Bool) (ty : Nat) : Bool :=']
+    for name, e in arms[:-1]:
+        L += ['  if ty = %s then %s else' % (name, bool_expr(e, 'OfferContents::verify filter arm %s' % name))]
+    L += ['  %s' % bool_expr(arms[-1][1], 'OfferContents::verify filter arm _'), '']
+    # signer.rs::Metadata::derives_recipient_keys, the two variants that reach verify
+    sp = strip_comments(open(os.path.join(REPO, 'lightning/src/offers/signer.rs')).read())
+    try:
+        _, _, db = find_fn(sp, 'derives_recipient_keys')
+    except (TranslateError, ValueError) as e:
+        raise TErr('Metadata::derives_recipient_keys: %s' % e)
+    db = squeeze(db)
+    md = re.fullmatch(r'\{ match self \{ Metadata::Bytes\(bytes\) => (.+?), Metadata::RecipientData\(_\) => (true|false), '
+                      r'Metadata::Derived\(_\) => (?:true|false), Metadata::DerivedSigningPubkey\(_\) => (?:true|false),? \} \}', db)
+    if not md: raise TErr('Metadata::derives_recipient_keys no longer has the expected shape: %s' % db[:300])
+    def len_b(recv, args):
+        if recv.replace(' ', '') == 'bytes': return 'metadata_len'
+        raise TranslateError('unexpected .len() receiver %s' % recv)
+    try:
+        be = Emitter(env={'Nonce::LENGTH': 'NONCE_LENGTH'}, methods={'len': len_b}).e(parse_expr(md.group(1)))
+    except TranslateError as e:
+        raise TErr('Metadata::derives_recipient_keys: cannot translate `%s`: %s' % (md.group(1), e))
+    L += ['/-- signer.rs Metadata::derives_recipient_keys for the two variants that reach OfferContents::verify:',
+          '    `Metadata::Bytes(bytes) => %s`, `Metadata::RecipientData(_) => %s` -/' % (md.group(1), md.group(2)),
+          'def derivesRecipientKeys (recipient_data : Bool) (metadata_len : Nat) : Bool :=',
+          '  if recipient_data then %s else %s' % (md.group(2), be), '']
+
 def main():
     p = os.path.join(REPO, 'lightning/src/offers/signer.rs')
     if not os.path.exists(p): raise TErr('missing file lightning/src/offers/signer.rs')
@@ -95,7 +209,7 @@ def main():
         except TranslateError as e:
             raise TErr('%s: cannot translate `%s`: %s' % (what, rust, e))
 
-    L = ['/- GENERATED by tools/gen_c18_meta.py from /repo (lightning/src/offers/signer.rs::verify_metadata) — do not edit. -/',
+    L = ['/- GENERATED by tools/gen_c18_meta.py from /repo (lightning/src/offers/signer.rs::verify_metadata, Metadata::derives_recipient_keys; offers/offer.rs::OfferContents::verify) — do not edit. -/',
          'import LdkModel.Model.SecpKey', 'import LdkModel.Generated.C18Consts', 'namespace Ldk.C18Meta',
          'open Ldk.SecpKey Ldk.C18Consts', '']
     # 1 branch condition
@@ -130,11 +244,12 @@ def main():
           'def hmacOk (metadata hmac : List UInt8) : Bool :=',
           '  let metadata_len := metadata.length',
           '  %s && fixedTimeEq (metadata.drop %s) hmac' % (nat_expr(m2.group(1), 'verify_metadata length check'), nat_expr(m2.group(2), 'verify_metadata slice start')), '']
+    coverage(L)
     L += ['end Ldk.C18Meta', '']
     text = '\n'.join(L)
     if not os.path.exists(OUT) or open(OUT).read() != text:
         open(OUT, 'w').write(text)
-    print('gen_c18_meta: ok (3 definitions)')
+    print('gen_c18_meta: ok (5 definitions)')
 
 if __name__ == '__main__':
     try:
